@@ -1083,8 +1083,9 @@ def c15(stream, scen=None):
 def c16(stream, scen=None):
     """value bookkeeping checked on the live objects by the runner (ValueRunner); plus, from the
     stream: a source's value is minus the summed value its supplied parts had when they were
-    supplied, a sink's value the summed value of the parts at receipt."""
-    wit = [l for l in stream if l.startswith('valbad')][:5]
+    supplied, a sink's value the summed value of the parts at receipt; inside a receive callback registered on a
+    sink the sink's public counters already contain the part (marker `sinkcb-unbooked` of the runner)."""
+    wit = [l for l in stream if l.startswith(('valbad', 'res sinkcb-unbooked'))][:5]
     fs = frames(stream)
     prev_parts = {}
     cost, recv = {}, {}
